@@ -63,10 +63,19 @@ func (o *Optimizer) checkFunctionCalls(stmt Statement) error {
 		exprs = append(exprs, vstmt.Keys...)
 	}
 	var err error
+	// A field can be referenced by name many times, its definition is walked only once
+	seen := make(map[Expression]bool)
 	for _, expr := range exprs {
 		expr.Walk(func(e Expression) bool {
 			if err != nil {
 				return false
+			}
+			if ref, isRef := e.(*FieldReferenceExpr); isRef {
+				if seen[ref.FieldExpr] {
+					return false
+				}
+				seen[ref.FieldExpr] = true
+				return true
 			}
 			fc, ok := e.(*FunctionCallExpr)
 			if !ok {
